@@ -16,12 +16,13 @@ TRUSTED = [
     "process' bookkeeping with a new pid), tied by correspondence with real os.fork() runs on a file-backed SQLite database: per operation, which connection "
     'objects were created / used / closed by which process, plus pool.con, pool.pid, forked_connections, cache.connection and db_context_counter afterwards',
     'harness: the module global `sqlite` of pony.orm.dbproviders.sqlite is replaced by a logging proxy from outside; os.fork(), pipes and waitpid of CPython/Linux',
-    'OraPool / cx_Oracle and the Pool of the PostgreSQL/MySQL providers are not executable here: OraPool.connect is covered by translation + theorem only',
+    'PostgreSQL / MySQL: no server here; their pool classes (PGPool, base Pool) run real os.fork() histories at pool level against a recording stub DB-API module, the harness '
+    'playing the session cache (tools/c36_pool_driver.py); OraPool / cx_Oracle: translation + theorem only',
 ]
 ASSUMPTIONS = [
     'one thread per process at the time of the fork (Pool is thread-local); the child gets a pid different from every process that created a connection it inherits',
     'a connection object is identified by (creating process, serial); "uses" = DB-API calls on it (cursor/execute/commit/rollback/close)',
-    'db.disconnect() called by the child is not a session operation and is outside the theorem (Pool.disconnect closes pool.con without a pid check - see notes/C36.md)',
+    'db.disconnect() in the child: Pool.disconnect closes pool.con without comparing pids - recorded as a known finding (the parent can keep using its connection under SQLite; for a socket driver close() in the child ends the shared server session)',
     'in-memory SQLite databases (:memory:, :sharedmemory:) are outside the statement (a new connection is a new database)',
 ]
 RULE = ('every implementation run is judged twice - by the Coq model (correspondence) and by the statement-level oracle (search): `evaluations` counts both judgements, `distinct_nontrivial` counts each distinct run once. ' 'real os.fork() scenarios: parent history (11 fork points: never connected, pooled after read / write / rollback, disconnected, session begun without '
@@ -30,7 +31,7 @@ RULE = ('every implementation run is judged twice - by the Coq model (correspond
         '- injected at the DB-API connect - followed by a retry) x parent continuation; '
         'non-trivial = the child touched a connection or the pool parked one; distinct = distinct (before, child, after)')
 
-OPMAP = {'begin': 'OBegin', 'query': 'OQuery', 'query_fail': 'OQueryFail', 'write': 'OQuery', 'end_commit': 'OEnd', 'end_rollback': 'OEnd', 'disconnect': 'ODisconnect'}
+OPMAP = {'begin': 'OBegin', 'query': 'OQuery', 'query_fail': 'OQueryFail', 'fail': 'OFail', 'write': 'OQuery', 'end_commit': 'OEnd', 'end_rollback': 'OEnd', 'disconnect': 'ODisconnect'}
 
 BEFORES = [
     ('never-connected', []),
@@ -98,19 +99,52 @@ def scenarios(ctx, deep=False):
     return out
 
 
+def with_backends(ctx, scs, deep=False):
+    """SQLite scenarios run through real Pony sessions; in addition the pools of the PostgreSQL provider (PGPool) and of the MySQL
+    provider (base Pool) run the same kind of histories at pool level with a recording stub DB-API module (tools/c36_pool_driver.py)"""
+    out = [dict(sc, backend='sqlite') for sc in scs]
+    # the child calls db.disconnect() right after the fork (what people do "to be safe"), then works
+    for name, before in BEFORES:
+        if depth_of(before) == 0:
+            out.append({'backend': 'sqlite', 'point': name, 'before': before, 'child': ['disconnect', 'begin', 'query', 'end_commit'], 'after': ['begin', 'query', 'end_commit']})
+    pool_scs = []
+    for name, before in BEFORES:
+        d = depth_of(before)
+        closing = ['end_commit'] * d
+        after = (['query'] + closing if d else []) + ['begin', 'query', 'end_commit']
+        childs = [(['begin'] if d == 0 else []) + ['query'] + ['end_commit'] * max(d, 1) + ['begin', 'query', 'end_commit'],
+                  (['begin'] if d == 0 else []) + ['query_fail', 'query', 'fail', 'query'] + ['end_commit'] * max(d, 1)]
+        if d == 0: childs.append(['disconnect', 'begin', 'query', 'end_rollback'])
+        if deep or ctx.thorough: childs.append((['begin'] if d == 0 else []) + ['query', 'fail'] + ['end_commit'] * max(d, 1) + ['disconnect', 'begin', 'query_fail', 'query', 'end_commit'])
+        for ch in childs:
+            pool_scs.append({'point': name, 'before': before, 'child': ch, 'after': after})
+    # parent histories that only the pool level can produce (a dropped connection)
+    pool_scs.append({'point': 'pooled-after-drop-and-reconnect', 'before': ['begin', 'query', 'fail', 'query', 'end_commit'],
+                     'child': ['begin', 'query', 'end_commit'], 'after': ['begin', 'query', 'fail', 'end_commit', 'begin', 'query', 'end_commit']})
+    for backend in ('PGPool', 'Pool'):
+        out += [dict(sc, backend=backend) for sc in pool_scs]
+    return out
+
+
 def run_scenarios(ctx, scs, procs=4):
     d = ctx.mkscratch()
-    chunks = [scs[i::procs] for i in range(procs)]
-    def one(ch):
-        if not ch: return {'results': []}
-        return vlib.run_impl('c36_driver.py', {'dbdir': d, 'scenarios': ch}, timeout=1200)
-    with ThreadPoolExecutor(max_workers=procs) as ex:
-        outs = list(ex.map(one, chunks))
     res = [None] * len(scs)
     info = {}
-    for i, o in enumerate(outs):
-        for j, r in enumerate(o['results']): res[i + j * procs] = r
-        info.update(o.get('info') or {})
+    jobs = []
+    sq = [i for i, sc in enumerate(scs) if sc.get('backend', 'sqlite') == 'sqlite']
+    for k in range(procs):
+        idx = sq[k::procs]
+        if idx: jobs.append(('c36_driver.py', {'dbdir': d, 'scenarios': [scs[i] for i in idx]}, idx))
+    for backend in ('PGPool', 'Pool'):
+        idx = [i for i, sc in enumerate(scs) if sc.get('backend') == backend]
+        if idx: jobs.append(('c36_pool_driver.py', {'pool': backend, 'scenarios': [scs[i] for i in idx]}, idx))
+    def one(job):
+        script, payload, idx = job
+        return vlib.run_impl(script, payload, timeout=1200), idx
+    with ThreadPoolExecutor(max_workers=procs + 2) as ex:
+        for o, idx in ex.map(one, jobs):
+            for i, r in zip(idx, o['results']): res[i] = r
+            info.update(o.get('info') or {})
     return res, info
 
 
@@ -120,7 +154,7 @@ _counted = set()      # result sets whose non-trivial cases were already counted
 def get_results(ctx, deep=False):
     key = (ctx.seed, ctx.tier, deep)
     if key not in _cache:
-        scs = scenarios(ctx, deep)
+        scs = with_backends(ctx, scenarios(ctx, deep), deep)
         res, info = run_scenarios(ctx, scs)
         _cache[key] = (scs, res, info)
     return _cache[key]
@@ -206,6 +240,7 @@ def correspondence(ctx):
     nontriv = set()
     for sc, r in zip(scs, res):
         dist[sc['point']] = dist.get(sc['point'], 0) + 1
+        dist['backend:' + sc.get('backend', 'sqlite')] = dist.get('backend:' + sc.get('backend', 'sqlite'), 0) + 1
         if 'setup_error' in r:
             disagreements.append({'what': 'implementation cannot run two plain sessions', 'input': sc, 'impl': r['setup_error']}); continue
         if not child_ok(r):
@@ -225,7 +260,7 @@ def correspondence(ctx):
     samples = []
     for want in ('pooled-after-write', 'live-session-open-write-transaction'):
         for (sc, r), e in zip(meta, exprs):
-            if sc['point'] == want:
+            if sc['point'] == want and sc.get('backend', 'sqlite') == 'sqlite':
                 samples.append({'scenario': sc, 'child_events': [dedup(o['events']) for o in r['child']['ops']], 'child_bookkeeping': r['child']['book'],
                                 'pool_connect_calls_in_child': r['child']['pool_connect_calls'], 'coq_case': e[:600]})
                 break
@@ -261,9 +296,17 @@ def oracle(sc, r):
         return out
     ch = r['child']
     foreign = [e for o in ch['ops'] for e in o['events'] if e[2] != 'C']
+    by_disconnect = [e for o in ch['ops'] if o['op'] == 'disconnect' for e in o['events'] if e[2] != 'C' and e[0] == 'close']
+    if by_disconnect:
+        out.append(('child-disconnect-closes-parent-connection',
+                    'fork point %s (%s): db.disconnect() in the child closed connection %s created by the parent (Pool.disconnect does not compare pids)'
+                    % (point, sc.get('backend', 'sqlite'), by_disconnect[0][2:])))
+        foreign = [e for e in foreign if e not in by_disconnect]
     if foreign:
         kinds = sorted(set(e[0] for e in foreign))
-        out.append(('fork-at-%s:child-%s-parent-connection' % (point, '+'.join(kinds)),
+        # inside a live session everything the child does with the inherited session connection has the same root cause: one key per fork point
+        kkey = 'use' if point.startswith('live-session') else '+'.join(kinds)
+        out.append(('fork-at-%s:child-%s-parent-connection' % (point, kkey),
                     'fork point %s: the child issued %d DB-API call(s) (%s) on connection %s created by the parent; Pool.connect calls in the child: %d'
                     % (point, len(foreign), ','.join(kinds), foreign[0][2:], ch['pool_connect_calls'])))
     for phase in ('before', 'after'):
@@ -271,7 +314,7 @@ def oracle(sc, r):
         if bad: out.append(('fork-at-%s:parent-touches-foreign-connection' % point, 'parent event %r' % (bad[0],)))
     # the parent keeps its own connection object: what was pooled / live at the fork is what it uses afterwards (unless it disconnects)
     at = r['at_fork']['pool_con']
-    if at is not None and 'disconnect' not in sc['after']:
+    if at is not None and 'disconnect' not in sc['after'] and 'fail' not in sc['after']:
         created_after = [e for o in r['after'] for e in o['events'] if e[0] == 'create']
         if created_after: out.append(('fork-at-%s:parent-lost-its-connection' % point, 'parent had to reconnect after the fork: %r' % (created_after[0],)))
     # visibility of commits across the two processes
